@@ -77,6 +77,18 @@ def run(cx):
         cx.check('C15.S1', len(r) == 1 and r[0].term in ('Option::Some(Entry::ttl(arg3,arg4))', 'Option::Some(Instant::saturating_duration_since(arg3.valid_until,arg4))'),
                  h.path, 'ret', 'expiry-mirrors-valid_until', '; '.join(s.term for s in r))
     cx.floor('C15.S1', n, 2, 'moka Expiry hooks')
+    # ---------------------------------------------------------------- S4 which bounds apply to a query type
+    # the lifetime L of the property is clamped with "the bounds of the query type": the limits registered for that type if there
+    # are any, else the global ones - as a WHOLE (a limit the selected set leaves open is 0 s / one day, as documented; it is not
+    # inherited field by field from the other set, which would raise a 10 s negative TTL to the global negative minimum)
+    B_ = (r'(?:Option::unwrap_or\(HashMap::get\(arg1\.by_query_type,arg2\),arg1\.default\)|phi\(arg1\.default\|HashMap::get\(arg1\.by_query_type,arg2\)@Some\.0\)'
+          r'|phi\(HashMap::get\(arg1\.by_query_type,arg2\)@Some\.0\|arg1\.default\))')
+    for sign in ('positive', 'negative'):
+        gb = cx.fn('C15.S4', f'hickory_resolver::cache::TtlConfig::{sign}_response_ttl_bounds')
+        if gb:
+            r_ = cx.returns(gb, r'.')
+            ok_ = len(r_) == 1 and bool(re.search(rf'^RangeInclusive::new\(Option::unwrap_or(?:_else)?\({B_}\.{sign}_min_ttl,[^|]*\),Option::unwrap_or(?:_else)?\({B_}\.{sign}_max_ttl,[^|]*\)\)$', r_[0].term))
+            cx.check('C15.S4', ok_, gb.path, 'ret', f'{sign}-bounds=(registered-for-the-type or default).{{min,max}}', '; '.join(x.term[:260] for x in r_))
     # ---------------------------------------------------------------- clamp_positive_ttls
     c = cx.fn('C15.S1', R + 'ResponseCache::clamp_positive_ttls')
     if c:
